@@ -136,7 +136,7 @@ CLAIMED = {
         'as a known finding.  Tie: generated histories written to real rotated plain/gz/bz2 files and replayed by the live loader under a frozen clock, every load() compared '
         '(state, events, final map) with the extracted model; the property judged on the implementation by an independent oracle.',
    note='Trusted: Coq kernel; extraction + driver; frozen clock via files.timer/times.timer replaced from outside; factor 1, no duration/upcoming, default on_bad_* flags; '
-        'timestamps multiples of 10 ms.  Partial: exactly-once holds only outside the three recorded shapes (no general positive theorem; the check reports any other shape).',
+        'timestamps multiples of 10 ms.  Partial: a positive exactly-once theorem (C18_exactly_once_partial) is proved for well-behaved histories (>= 2 strictly increasing register records per file, files strictly ordered) replayed from before their start with one catching-up load; other schedules rest on the universal guarantees and the correspondence; the check reports any violation outside the three recorded shapes.',
    technique='Coq proof (invariant over the loader state machine, induction over fuel and schedule; vm_compute refutation witnesses) + correspondence', design='6 C18'),
  'C06': dict(
    text='Coq theorems (Properties/C06.v) over a session model (Model/Session.v: Register / Unregister / List* / SendRRData, the CIP request executed by Model.Route.ucmm_local = '
